@@ -156,6 +156,12 @@ fn check_quiescent(which: &str, c: &Case, r: &Run<'_>) -> Result<(), String> {
     if running.is_empty() && (on("C04") || on("C10")) {
         return Err(format!("{}: the call is Pending with nothing running and no wake-up outstanding: it never completes ({}; {}) trace={:?}", if on("C04") { "C04" } else { "C10" }, r.label, c.desc, *tr));
     }
+    if running.is_empty() && on("C03") {
+        let never: Vec<usize> = (0..c.n).filter(|&i| !started[i]).collect();
+        if !never.is_empty() {
+            return Err(format!("C03: clean run (no interruption, no failure) that can make no further progress - nothing running, no wake-up outstanding - with functions {never:?} never handed out: it cannot return / end having handed out every function exactly once ({}; {}) trace={:?}", r.label, c.desc, *tr));
+        }
+    }
     Ok(())
 }
 
@@ -191,6 +197,20 @@ fn drive(which: &str, c: &Case, runs: &mut [Run<'_>], rng: &mut Lcg, stop_after:
     }
     for r in runs.iter() { check_trace(which, c, &r.edges, &r.st.trace.borrow(), true, &r.label)?; }
     Ok(())
+}
+
+/// a run of for_each_concurrent_mut_with (exclusive borrow of the graph): used for the C15 histories
+fn new_run_mut<'a>(g: &'a mut FnGraph<Acc>, reverse: bool, tag: &str) -> Run<'a> {
+    let st = Rc::new(RunSt::default());
+    let (waker, cnt) = counting_waker();
+    let edges = built_edges(g, reverse);
+    let opts = if reverse { StreamOpts::new().rev() } else { StreamOpts::new() };
+    let s2 = st.clone();
+    let fut: Fut<'a> = Box::pin(async move {
+        let s3 = s2.clone();
+        g.for_each_concurrent_mut_with(None, opts, move |f: &mut Acc| { let (s, id) = (s3.clone(), f.id); let gate = s.start(id); async move { gate.await; s.trace.borrow_mut().push(Ev::End(id)); } }).await;
+    });
+    Run { fut: Some(fut), st, waker, cnt, seen: 0, edges, limit: None, label: format!("{tag}for_each_concurrent_mut_with(reverse={reverse})") }
 }
 
 fn new_run<'a>(g: &'a FnGraph<Acc>, api: Api, reverse: bool, limit: Option<usize>, tag: &str) -> Run<'a> {
@@ -230,12 +250,19 @@ fn run_case(which: &'static str, c: &Case, seed: u64) -> Result<(), String> {
     // ---- C15: history of earlier runs, then the same run on the reused and on a fresh graph
     if on("C15") {
         for api in apis { for reverse in [false, true] {
-            for hist in [vec![(Api::ForEach, false, None)], vec![(Api::ForEach, true, None)], vec![(Api::Stream, false, Some(1usize))], vec![(Api::TryForEach, true, Some(0usize))], vec![(Api::Stream, true, None), (Api::ForEach, false, Some(2usize))]] {
-                let g = build(c);
-                for (k, &(ha, hr, stop)) in hist.iter().enumerate() {
+            // (api, reverse, dropped after k completions, exclusive-borrow variant)
+            for hist in [vec![(Api::ForEach, false, None, false)], vec![(Api::ForEach, true, None, false)], vec![(Api::Stream, false, Some(1usize), false)], vec![(Api::TryForEach, true, Some(0usize), false)],
+                         vec![(Api::Stream, true, None, false), (Api::ForEach, false, Some(2usize), false)], vec![(Api::ForEach, false, Some(0usize), true)], vec![(Api::ForEach, true, Some(1usize), true)], vec![(Api::ForEach, false, None, true)]] {
+                let mut g = build(c);
+                for (k, &(ha, hr, stop, exclusive)) in hist.iter().enumerate() {
                     let mut rng = Lcg(seed ^ (0xc15 + k as u64));
-                    let mut runs = [new_run(&g, ha, hr, None, "earlier run: ")];
-                    let _ = drive("none", c, &mut runs, &mut rng, stop);
+                    if exclusive {
+                        let mut runs = [new_run_mut(&mut g, hr, "earlier run: ")];
+                        let _ = drive("none", c, &mut runs, &mut rng, stop);
+                    } else {
+                        let mut runs = [new_run(&g, ha, hr, None, "earlier run: ")];
+                        let _ = drive("none", c, &mut runs, &mut rng, stop);
+                    }
                     // runs (incl. the unfinished future / stream and its held FnRefs) are dropped here
                 }
                 let final_trace = |g: &FnGraph<Acc>| -> (Vec<Ev>, Result<(), String>) {
@@ -249,7 +276,7 @@ fn run_case(which: &'static str, c: &Case, seed: u64) -> Result<(), String> {
                 let fresh = build(c);
                 let (t_fresh, _) = final_trace(&fresh);
                 if t_reused != t_fresh || r_reused.is_err() {
-                    return Err(format!("C15: after the history {hist:?} (api, reverse, dropped after k completions) the run {api:?}(reverse={reverse}) on the reused graph gives trace {t_reused:?}{} but on a fresh graph {t_fresh:?} ({})", r_reused.err().map(|e| format!(" [{e}]")).unwrap_or_default(), c.desc));
+                    return Err(format!("C15: after the history {hist:?} (api, reverse, dropped after k completions, *_mut variant) the run {api:?}(reverse={reverse}) on the reused graph gives trace {t_reused:?}{} but on a fresh graph {t_fresh:?} ({})", r_reused.err().map(|e| format!(" [{e}]")).unwrap_or_default(), c.desc));
                 }
             }
         } }
